@@ -187,6 +187,17 @@ class Context:
         return c
 
 
+def _lookup_strict(context, name):
+    """fetch a name for a template compiled with strict_undefined; kept
+    out of the generated module so that it does not depend on names the
+    template itself may rebind (``KeyError``, ``NameError``)."""
+
+    try:
+        return context[name]
+    except KeyError:
+        raise NameError("'%s' is not defined" % name) from None
+
+
 class CallerStack(list):
     def __init__(self):
         self.nextcaller = None
